@@ -37,6 +37,8 @@ fn lib_menu() -> Vec<&'static str> {
         "10 PRINT 1 +",
         "20 PRINT \"a\";: X = X + 1",
         "30 REM note  ",
+        "20 :",
+        "30 : : PRINT \"c\"",
         "40 DATA \"ab  ",
         "20 PRINT \"t\"\t ",
         "20 PRINT ((((1 + \"A\"))))",
@@ -126,6 +128,8 @@ fn cli_programs() -> Vec<CliProg> {
         CliProg { name: "leading blanks and extreme numbers", text: "  5 PRINT \"five\";F\n0 PRINT \"zero\"\n18446744073709551615 PRINT \"max\"\n", replies: "", analysis_error: false },
         CliProg { name: "output ends without a newline", text: "10 X = 3\n20 PRINT \"abc\";X;\n", replies: "", analysis_error: false },
         CliProg { name: "last statements print nothing", text: "10 PRINT \"a\"\n20 Y = 1\n30 Y = Y + W\n", replies: "", analysis_error: false },
+        CliProg { name: "first statement fails", text: "10 PRINT X / 0\n20 PRINT \"no\"\n", replies: "", analysis_error: false },
+        CliProg { name: "colon-only line as a jump target", text: "10 GOTO 30\n20 PRINT \"skipped\"\n30 :\n40 PRINT \"end\";K\n", replies: "", analysis_error: false },
         CliProg { name: "long unbroken output", text: "10 FOR I = 1 TO 120: PRINT \"xyz\";: NEXT I\n20 PRINT L\n", replies: "", analysis_error: false },
     ]
 }
